@@ -15,7 +15,7 @@ MODES = ["union", "intersection"]
 # named family of metadata functions; each has a Lean twin (BiomModel/C09.lean `namedF`).
 # every member maps (None, None) to None or {} ("no metadata, no metadata" -> no metadata)
 FNAMES = ["prefer_self", "prefer_other", "union_self", "union_always", "both_only", "drop", "tag"]
-PATTERNS = ["disjoint", "nested_in", "nested_out", "partial", "identical", "permuted"]
+PATTERNS = ["disjoint", "nested_in", "nested_out", "partial", "identical", "permuted", "tricky"]
 HIST = ["none", "copy", "transpose2", "sort_samp_rev", "sort_obs_rev", "drop_first_samp", "drop_last_obs",
         "self_merge", "self_merge_inter", "premerge", "del_md", "sort_natural"]
 VALUE_CLASSES = ("count", "smallcount", "dyadic", "neg")
@@ -98,17 +98,106 @@ def build_operand(rec):
     return apply_history(core.build(rec["spec"], rec["route"]), rec["hist"])
 
 
-def public_obs(r):
-    """the result as seen through ids / get_value_by_ids / metadata(id, axis)"""
-    obs = [str(i) for i in r.ids(axis="observation")]
-    samp = [str(i) for i in r.ids()]
-    rows = [[core.frac(r.get_value_by_ids(o, s)) for s in samp] for o in obs]
-    omd = smd = None
-    if r.metadata(axis="observation") is not None:
-        omd = [core.canon_md_entry(r.metadata(o, "observation")) for o in obs]
-    if r.metadata(axis="sample") is not None:
-        smd = [core.canon_md_entry(r.metadata(s, "sample")) for s in samp]
-    return {"obs": obs, "samp": samp, "rows": rows, "omd": omd, "smd": smd, "type": r.type}
+def public_obs(r, rrng=None):
+    """the result as seen through ids / get_value_by_ids / metadata(id, axis); the order in which the
+    accessors are asked is random when `rrng` is given"""
+    parts = ["ids", "cells", "md"]
+    if rrng is not None:
+        rrng.shuffle(parts)
+    got = {}
+    obs = samp = None
+    for part in parts:
+        if obs is None:
+            # every part needs the IDs; which axis is asked first is random too
+            if rrng is not None and rrng.random() < 0.5:
+                samp = [str(i) for i in r.ids()]
+                obs = [str(i) for i in r.ids(axis="observation")]
+            else:
+                obs = [str(i) for i in r.ids(axis="observation")]
+                samp = [str(i) for i in r.ids()]
+        if part == "cells":
+            pairs = [(i, j) for i in range(len(obs)) for j in range(len(samp))]
+            if rrng is not None:
+                rrng.shuffle(pairs)
+            rows = [[None] * len(samp) for _ in obs]
+            for i, j in pairs:
+                rows[i][j] = core.frac(r.get_value_by_ids(obs[i], samp[j]))
+            got["rows"] = rows
+        elif part == "md":
+            omd = smd = None
+            if r.metadata(axis="observation") is not None:
+                omd = [core.canon_md_entry(r.metadata(o, "observation")) for o in obs]
+            if r.metadata(axis="sample") is not None:
+                smd = [core.canon_md_entry(r.metadata(x, "sample")) for x in samp]
+            got["omd"], got["smd"] = omd, smd
+    return {"obs": obs, "samp": samp, "rows": got["rows"], "omd": got["omd"], "smd": got["smd"], "type": r.type}
+
+
+def by_id(o):
+    """order-free view of an observation (IDs -> cells / metadata), for unchanged-ness checks"""
+    cells = {(a, b): o["rows"][i][j] for i, a in enumerate(o["obs"]) for j, b in enumerate(o["samp"])}
+    omd = None if o["omd"] is None else {a: o["omd"][i] for i, a in enumerate(o["obs"])}
+    smd = None if o["smd"] is None else {b: o["smd"][j] for j, b in enumerate(o["samp"])}
+    return (o["obs"], o["samp"], cells, omd, smd)
+
+
+def coherent(t):
+    """the table answers by-ID queries through its own lookups exactly as its matrix/ID arrays say"""
+    pos = core.table_obs(t)
+    pub = public_obs(t)
+    if by_id({k: pos[k] for k in ("obs", "samp", "rows", "omd", "smd")}) != by_id(pub):
+        return False
+    for ax, ids in (("observation", pos["obs"]), ("sample", pos["samp"])):
+        for k, i in enumerate(ids):
+            if not t.exists(i, axis=ax) or t.index(i, axis=ax) != k:
+                return False
+        for u in core.tricky_unknown_ids(ids)[:6]:
+            if t.exists(u, axis=ax):
+                return False
+    return True
+
+
+INPLACE_OPS = ["scale2", "pa", "rename_longer", "del_md_key", "del_md_all", "mutate_md_dict", "add_md",
+               "filter_inplace"]
+
+
+def apply_inplace(t, op, axis):
+    """an in-place change that keeps the table object (and, where the library does, its matrix / ID arrays /
+    metadata objects); returns False when it does not apply to this table"""
+    ids = [str(i) for i in t.ids(axis=axis)]
+    if not ids or t.shape[0] == 0 or t.shape[1] == 0:
+        return False
+    if op == "scale2":
+        t.transform(lambda v, i, m: v * 2, axis=axis, inplace=True)
+    elif op == "pa":
+        t.pa(inplace=True)
+    elif op == "rename_longer":
+        longest = max(len(i) for i in ids)
+        new = ids[0] + "_" * (longest + 3)
+        t.update_ids({ids[0]: new}, axis=axis, strict=False, inplace=True)
+    elif op == "del_md_key":
+        md = t.metadata(axis=axis)
+        if md is None or "grp" not in md[0]:
+            return False
+        t.del_metadata(keys=["grp"], axis=axis)
+    elif op == "del_md_all":
+        if t.metadata(axis=axis) is None:
+            return False
+        t.del_metadata(axis=axis)
+    elif op == "mutate_md_dict":
+        md = t.metadata(axis=axis)
+        if md is None:
+            return False
+        md[0]["grp"] = "mutated-in-place"
+    elif op == "add_md":
+        t.add_metadata({ids[-1]: {"added": 1}}, axis=axis)
+    elif op == "filter_inplace":
+        if len(ids) < 2:
+            return False
+        t.filter([ids[-1]], axis=axis, invert=True, inplace=True)
+    else:
+        raise ValueError(op)
+    return True
 
 
 class Tracer:
@@ -152,18 +241,7 @@ class Tracer:
         return out
 
 
-def run_case(ctx, recipe, tags=()):
-    """recipe: {"ops": [operand records], "form": single|list|tuple, "ms", "mo", "fs", "fo"}
-    fs/fo: "default" (argument not passed), a family name, or None"""
-    try:
-        tables = [build_operand(r) for r in recipe["ops"]]
-    except Exception as e:
-        # the histories are themselves valid calls (self-merges never have an empty axis): a refusal
-        # or crash while preparing an operand is a failure of the code under test
-        ctx.case({"recipe": recipe}, nontrivial=False)
-        ctx.fail({"recipe": recipe}, "history:unexpected-" + core.err_name(e), tuple(tags) + ("history",))
-        return None, None, None
-    a, others = tables[0], tables[1:]
+def merge_args(recipe, others):
     form = recipe["form"]
     kw = {"sample": recipe["ms"], "observation": recipe["mo"]}
     names = {}
@@ -183,11 +261,36 @@ def run_case(ctx, recipe, tags=()):
         arg = list(others)
     else:
         arg = tuple(others)
+    args = [arg]
+    if recipe.get("positional"):
+        # the same call with the optional arguments passed by position
+        args += [kw.pop("sample"), kw.pop("observation")]
+        if "sample_metadata_f" in kw and "observation_metadata_f" in kw:
+            args += [kw.pop("sample_metadata_f"), kw.pop("observation_metadata_f")]
+    return args, kw, names
+
+
+def merge_once(ctx, recipe, tables, tags, rrng, label):
+    """observe the operands, run the real merge, observe the outcome, ask Lean; returns (r, outcome, before)"""
+    import warnings
+    import biom.err
+    a, others = tables[0], tables[1:]
+    form = recipe["form"]
+    args, kw, names = merge_args(recipe, others)
     before = [core.table_obs(t) for t in tables]
-    with Tracer() as tr:
+    profile = recipe.get("profile")
+    if profile and any(len(b["obs"]) == 0 or len(b["samp"]) == 0 for b in before):
+        profile = None
+    with Tracer() as tr, warnings.catch_warnings():
+        warnings.simplefilter("ignore")
         try:
-            r = a.merge(arg, **kw)
-            outcome = {"ok": public_obs(r)}
+            if profile:
+                with biom.err.errstate(**profile):
+                    r = a.merge(*args, **kw)
+            else:
+                r = a.merge(*args, **kw)
+            # by-ID observation right after the call, before any other accessor touches the result
+            outcome = {"ok": public_obs(r, rrng)}
         except Exception as e:          # every exception class is reported to the predicate
             outcome = {"error": core.err_name(e)}
             r = None
@@ -196,18 +299,19 @@ def run_case(ctx, recipe, tags=()):
            "fs": names["fs"], "fo": names["fo"], "outcome": outcome, "trace": steps}
     # non-trivial: two or more operands each holding a non-zero value, more than one cell overall
     nz = [any(v != "0" for row in b["rows"] for v in row) for b in before]
-    cells = len({o for b in before for o in b["obs"]}) * len({s for b in before for s in b["samp"]})
+    cells = len({o for b in before for o in b["obs"]}) * len({x for b in before for x in b["samp"]})
     ctx.case({k: req[k] for k in ("a", "others", "list", "ms", "mo", "fs", "fo")},
              nontrivial=len(before) >= 2 and sum(nz) >= 2 and cells >= 2)
     resp = ctx.driver.ask(req)
-    case = {"recipe": recipe, "request": req}
-    branch = "fast" if steps == ["fast"] else ("general" if form == "single" else "folded:" + "".join(s[0] for s in steps))
+    case = {"recipe": recipe, "request": req, "stage": label}
+    branch = "fast" if steps == ["fast"] else ("general" if form == "single" else "folded:" + "".join(x[0] for x in steps))
     ctx.count("branch=" + (branch if len(branch) < 14 else branch[:14] + "+"))
     ctx.count("form=%s k=%d" % (form, len(others)))
     ctx.count("modes=%s/%s" % (recipe["ms"][:5], recipe["mo"][:5]))
     ctx.count("outcome=" + ("ok" if "ok" in outcome else outcome["error"]))
     ctx.count("policy(sample)=%s" % recipe["fs"])
     ctx.count("policy(observation)=%s" % recipe["fo"])
+    ctx.count("layout(operands)=%s" % "/".join(t.matrix_data.getformat() for t in tables[:2]))
     mdcfg = "".join("1" if (b["omd"] is not None or b["smd"] is not None) else "0" for b in before[:3])
     ctx.count("md(operands)=" + mdcfg)
     if "ok" in outcome:
@@ -220,7 +324,86 @@ def run_case(ctx, recipe, tags=()):
     elif not resp["agree"]:
         ctx.diverge(case, "outcome (by ID) or branch trace differs from the model", tags,
                     detail={"model": resp["model"], "model_trace": resp["model_trace"]})
-    return resp, outcome, steps
+    # merging (or refusing to) leaves every operand as it was, and coherent with its own lookups
+    same_obj = r is not None and any(r is t for t in tables)
+    for k, t in enumerate(tables):
+        now = core.table_obs(t)
+        if now != before[k]:
+            ctx.fail(case, "operands:changed-by-merge" if r is not None else "operands:changed-by-refused-merge",
+                     tuple(tags) + ("operand=%d" % k,))
+        elif (r is None or recipe.get("coherence")) and not coherent(t):
+            ctx.fail(case, "operands:incoherent-after-merge", tuple(tags) + ("operand=%d" % k,))
+    return (None if same_obj else r), outcome, before
+
+
+def run_case(ctx, recipe, tags=()):
+    """recipe: {"ops": [operand records], "form": single|list|tuple, "ms", "mo", "fs", "fo"} plus optional
+    hardening fields: "poke" (seed: leave operands in a random layout by read-only calls), "read" (seed:
+    accessor order), "positional", "profile" (errstate keywords), "coherence",
+    "then": {"kind": "again", "which": i, "op": .., "axis": ..}   second merge after an in-place change, or
+            {"kind": "alias", "target": "result"|i, "op": .., "axis": ..}   every other live table unchanged.
+    fs/fo: "default" (argument not passed), a family name, or None"""
+    import random
+    try:
+        tables = [build_operand(r) for r in recipe["ops"]]
+    except Exception as e:
+        # the histories are themselves valid calls (self-merges never have an empty axis): a refusal
+        # or crash while preparing an operand is a failure of the code under test
+        ctx.case({"recipe": recipe}, nontrivial=False)
+        ctx.fail({"recipe": recipe}, "history:unexpected-" + core.err_name(e), tuple(tags) + ("history",))
+        return None, None, None
+    if recipe.get("poke") is not None:
+        prng = random.Random(recipe["poke"])
+        for t in tables:
+            for what in core.poke_layout(t, prng, max_reads=3):
+                ctx.count("poke=" + what)
+            # the last read decides the layout: end on the sample axis (CSC) for a good share
+            if prng.random() < 0.5 and t.shape[0] > 0 and t.shape[1] > 0:
+                t.data(t.ids()[prng.randrange(t.shape[1])], axis="sample")
+    rrng = random.Random(recipe["read"]) if recipe.get("read") is not None else None
+    r, outcome, before = merge_once(ctx, recipe, tables, tags, rrng, "first")
+    then = recipe.get("then")
+    if not then:
+        return r, outcome, before
+    if then["kind"] == "again":
+        # identity-keyed state: the same call again after an in-place change of one operand is judged
+        # against the operand's CURRENT content
+        t = tables[then["which"] % len(tables)]
+        try:
+            applied = apply_inplace(t, then["op"], then["axis"])
+        except Exception as e:
+            ctx.count("again:%s-refused=%s" % (then["op"], core.err_name(e)))
+            applied = False
+        if applied:
+            ctx.count("again=" + then["op"])
+            merge_once(ctx, recipe, tables, tuple(tags) + ("again", "op=" + then["op"]), rrng, "again")
+    elif then["kind"] == "alias" and r is not None:
+        r_before = public_obs(r)
+        ops_before = [core.table_obs(t) for t in tables]
+        live = [("result", r)] + [(k, t) for k, t in enumerate(tables)]
+        target = then["target"] if then["target"] == "result" else then["target"] % len(tables)
+        tobj = r if target == "result" else tables[target]
+        try:
+            applied = apply_inplace(tobj, then["op"], then["axis"])
+        except Exception as e:
+            ctx.count("alias:%s-refused=%s" % (then["op"], core.err_name(e)))
+            applied = False
+        if applied:
+            ctx.count("alias=%s on %s" % (then["op"], "result" if target == "result" else "operand"))
+            case = {"recipe": recipe, "stage": "alias"}
+            for name, t in live:
+                if name == target or t is tobj:
+                    continue
+                if name == "result":
+                    ok = by_id(public_obs(t)) == by_id(r_before)
+                else:
+                    ok = core.table_obs(t) == ops_before[name]
+                if not ok:
+                    ctx.fail(case, "alias:other-table-changed", tuple(tags) + ("alias", "op=" + then["op"],
+                                                                               "changed=%s" % name, "target=%s" % target))
+                elif not coherent(t):
+                    ctx.fail(case, "alias:other-table-incoherent", tuple(tags) + ("alias", "op=" + then["op"]))
+    return r, outcome, before
 
 
 # ----------------------------------------------------------------------------- generators
@@ -256,6 +439,18 @@ def id_sets(rng, k, pattern, prefix, max_n):
                 keep = keep[:-1]
             extra = rest[:rng.randint(1, max(1, max_n - len(keep)))]
             ids = keep + extra
+            rng.shuffle(ids)
+        elif pattern == "tricky":
+            # the other's new IDs look like the receiver's (extensions, prefixes, case variants, blanks) and are
+            # longer than every ID of the receiver (fixed-width ID arrays), end in a blank / newline, or are
+            # non-ASCII with a UTF-8 length above their character count
+            longest = max(len(x) for x in base)
+            look = core.tricky_unknown_ids(base)
+            rng.shuffle(look)
+            extra = look[:rng.randint(1, 3)] + [rng.choice([base[0] + "\n", base[-1] + " ", prefix + "é" * (longest + 1),
+                                                            prefix + "日本" * longest, base[0] + "_" * (longest + 2)])]
+            keep = rng.sample(base, rng.randint(0, n))
+            ids = [x for x in dict.fromkeys(keep + extra)]
             rng.shuffle(ids)
         else:
             raise ValueError(pattern)
@@ -415,21 +610,83 @@ def degenerate_corpus():
     return out
 
 
+def harden(rng, recipe, then=True):
+    """hardening fields (see run_case): layout left behind, accessor order, positional arguments, error
+    profile, coherence of the operands, a second call after an in-place change, aliasing"""
+    if rng.random() < 0.6:
+        recipe["poke"] = rng.randrange(1 << 30)
+    if rng.random() < 0.6:
+        recipe["read"] = rng.randrange(1 << 30)
+    if rng.random() < 0.15:
+        recipe["positional"] = True
+    if rng.random() < 0.2:
+        recipe["profile"] = rng.choice([{"empty": "raise"}, {"empty": "warn"}, {"empty": "call"}, {"all": "raise"},
+                                        {"all": "warn"}])
+    if rng.random() < 0.1:
+        recipe["coherence"] = True
+    c = rng.random()
+    k = len(recipe["ops"])
+    if then and k >= 2 and c < 0.15:
+        recipe["then"] = {"kind": "again", "which": rng.randrange(k), "op": rng.choice(INPLACE_OPS),
+                          "axis": rng.choice(["sample", "observation"])}
+    elif then and k >= 2 and c < 0.3:
+        recipe["then"] = {"kind": "alias", "target": rng.choice(["result", "result", 0, 1, k - 1]),
+                          "op": rng.choice(INPLACE_OPS), "axis": rng.choice(["sample", "observation"])}
+    return recipe
+
+
+def wide_recipe(rng, axis):
+    """size thresholds: >= 64 IDs on an axis, the other operand's IDs in another order, partly new and longer"""
+    sa = core.wide_spec(rng, axis=axis, classes=VALUE_CLASSES, md=rng.random() < 0.5)
+    key = "samp" if axis == "sample" else "obs"
+    okey = "obs" if axis == "sample" else "samp"
+    ids = list(sa[key])
+    keep = rng.sample(ids, rng.randint(len(ids) // 2, len(ids)))
+    new = ["%s_new_%s" % (ids[-1], "x" * (i % 5)) + str(i) for i in range(rng.randint(1, 8))]
+    bids = keep + new
+    rng.shuffle(bids)
+    oids = list(sa[okey])
+    rng.shuffle(oids)
+    oids = oids[:rng.randint(1, len(oids))] + [oids[0] + "_longer_than_all"]
+    sb = {key: bids, okey: oids, "type": None, "omd": None, "smd": None}
+    n, m = len(sb["obs"]), len(sb["samp"])
+    sb["rows"] = core.gen_grid(rng, n, m, 0.6, VALUE_CLASSES)
+    if rng.random() < 0.5:
+        sb["omd"] = gen_md(rng, sb["obs"], "t1", "plain")
+        sb["smd"] = gen_md(rng, sb["samp"], "t1", "plain")
+    ops = [{"spec": sa, "route": rng.choice(core.ROUTES), "hist": []},
+           {"spec": sb, "route": rng.choice(core.ROUTES), "hist": []}]
+    if rng.random() < 0.5:
+        ops.reverse()
+    return {"ops": ops, "form": rng.choice(["single", "list"]), "ms": rng.choice(MODES), "mo": rng.choice(MODES),
+            "fs": policy(rng), "fo": policy(rng)}
+
+
 def run(ctx):
     rng = ctx.rng
-    ctx.rule = ("recipes = (operands built by core.build route + prior history) x form (single/list/tuple, k<=3 others) x "
-                "ID overlap pattern per axis (disjoint, nested either way, partial, identical, permuted) x 4 mode pairs x "
-                "metadata on neither/self/other/both x policy (default prefer_self, named custom family, None); "
-                "fixed corpus of the repaired defects first, then degenerate (empty intersection / empty union / empty list), "
-                "then systematic product, then random. non-trivial = at least two operands holding a non-zero value "
-                "and more than one cell; distinct = distinct operand contents + arguments")
+    ctx.rule = ("recipes = (operands built by core.build route + prior history, then left in a random layout by read-only "
+                "calls) x form (single/list/tuple, k<=3 others, keyword or positional arguments) x ID overlap pattern per "
+                "axis (disjoint, nested either way, partial, identical, permuted, look-alike/longer/non-ASCII new IDs) x "
+                "4 mode pairs x metadata on neither/self/other/both x policy (default prefer_self, named custom family, "
+                "None) x error profile; fixed corpus of the repaired defects first, then degenerate (empty intersection / "
+                "empty union / empty list), systematic product, policy product, wide tables (>= 64 IDs), random; a share "
+                "is followed by the same call after an in-place change of an operand, or by an in-place change of the "
+                "result / an operand with every other live table required unchanged. non-trivial = at least two operands "
+                "holding a non-zero value and more than one cell; distinct = distinct operand contents + arguments")
     ctx.trusted = ["values are small integers / dyadic fractions so that all sums are exact in binary64",
                    "custom metadata functions come from a named family with Lean twins; each maps (None, None) to "
                    "None or {} (domain hypothesis of the property)",
-                   "the branch taken is observed by wrapping Table.merge / Table._fast_merge from outside"]
-    ctx.assumptions = ["float addition is exact on the generated values (|v| < 2^7, at most 6 fractional bits, <= 8 terms)"]
+                   "the branch taken is observed by wrapping Table.merge / Table._fast_merge from outside",
+                   "operand-unchanged / aliasing / coherence clauses are evaluated by the harness (Python comparison of "
+                   "canonical observations), not by Lean"]
+    ctx.assumptions = ["float addition is exact on the generated values (|v| <= 128 after doubling, at most 6 fractional "
+                       "bits, <= 8 terms)"]
     for tag, recipe in fixed_corpus():
         run_case(ctx, recipe, (tag, "fixed"))
+    # process-level state: unusual optional arguments early, default calls judged later (fixed corpus again at the end)
+    for fs, fo in (("tag", "union_always"), (None, "drop"), ("both_only", None)):
+        run_case(ctx, harden(rng, gen_recipe(rng, 2, "partial", "partial", "union", "intersection",
+                                             md_config(rng, "both", 2), fs, fo, "list")), ("early-custom",))
     for tag, recipe in degenerate_corpus():
         run_case(ctx, recipe, (tag,))
     # systematic: overlap pattern on each axis x modes x who carries metadata
@@ -440,18 +697,23 @@ def run(ctx):
                 for which in ("neither", "self", "other", "both"):
                     fs, fo = policy(rng), policy(rng)
                     form = rng.choice(["single", "single", "list"])
-                    recipe = gen_recipe(rng, 1, opat, spat, ms, mo, md_config(rng, which, 1), fs, fo, form)
+                    recipe = harden(rng, gen_recipe(rng, 1, opat, spat, ms, mo, md_config(rng, which, 1), fs, fo, form))
                     run_case(ctx, recipe, ("systematic", "o=" + opat, "s=" + spat, "md=" + which))
                     ctx.count("pattern(obs)=" + opat)
                     ctx.count("md=" + which)
-    # every policy pair on a partial overlap with metadata on both operands, all modes
+    # every policy pair on a partial overlap with metadata on both operands, all modes; pair and list form
     for fs, fo in itertools.product(["default", None] + FNAMES, repeat=2):
         ms, mo = rng.choice(MODES), rng.choice(MODES)
-        for which in ("both", "other"):
-            recipe = gen_recipe(rng, 1, "partial", "partial", ms, mo, md_config(rng, which, 1), fs, fo, "single")
+        for which, form, k in (("both", "single", 1), ("other", "single", 1), ("both", "list", 2)):
+            recipe = harden(rng, gen_recipe(rng, k, "partial", "partial", ms, mo, md_config(rng, which, k), fs, fo, form))
             run_case(ctx, recipe, ("policy-product",))
+    # size thresholds
+    for _ in range(6 if ctx.quick() else 60):
+        axis = rng.choice(["sample", "observation"])
+        run_case(ctx, harden(rng, wide_recipe(rng, axis), then=False), ("wide", "axis=" + axis))
+        ctx.count("wide=" + axis)
     # random, including k-tuples
-    n = 2000 if ctx.quick() else 60000
+    n = 1800 if ctx.quick() else 50000
     for _ in range(n):
         k = rng.choice([1, 1, 2, 2, 3])
         form = "single" if (k == 1 and rng.random() < 0.5) else rng.choice(["list", "tuple"])
@@ -459,8 +721,11 @@ def run(ctx):
         ms, mo = rng.choice([("union", "union")] * 3 + list(itertools.product(MODES, MODES)))
         recipe = gen_recipe(rng, k, rng.choice(pats), rng.choice(pats), ms, mo, md_config(rng, which, k),
                             policy(rng), policy(rng), form, max_n=4 if ctx.quick() else rng.choice([3, 4, 6]))
-        run_case(ctx, recipe, ("random", "k=%d" % k))
+        run_case(ctx, harden(rng, recipe), ("random", "k=%d" % k))
         ctx.count("md=" + which)
+    # the default calls of the fixed corpus once more, after everything else ran in this process
+    for tag, recipe in fixed_corpus():
+        run_case(ctx, dict(recipe, poke=rng.randrange(1 << 30), coherence=True), (tag, "fixed", "late"))
 
 
 def replay(ctx, rec):
